@@ -289,7 +289,7 @@ def overlap_task(task, wdir, res):
     node = lt.start()
     res.count("tasks")
     parked_side, point = task["side"], task["point"]
-    witness = {"mode": "overlap", "seed": task["seed"], "config": cfg, "parked": [parked_side, point]}
+    witness = {"mode": "overlap", "seed": task["seed"], "config": cfg, "parked": [parked_side, point], "restart": task.get("restart", "clean")}
     sig = {"template": "overlap_" + parked_side, "group": point.split(".")[0]}
     mon = Monitor(res, sig, witness)
     try:
@@ -338,12 +338,14 @@ def overlap_task(task, wdir, res):
         time.sleep(0.2)
         mon.observe(node.meta("fs hash"), "cmd:after_overlap")
         rows_before = sorted(r.get("k") for r in node.cmd("QUERY ev RETURN [k]").dicts())
-        node = lt.restart_clean()
+        node = lt.restart_kill() if task.get("restart") == "kill" else lt.restart_clean()
         mon.at_startup(node.meta("fs hash"))
-        rows_after = sorted(r.get("k") for r in node.cmd("QUERY ev RETURN [k]").dicts())
+        rows_after = sorted({r.get("k") for r in node.cmd("QUERY ev RETURN [k]").dicts()} |
+                            {r.get("k") for c_ in range(3) for r in node.cmd(f"REPLAY ev FOR c{c_}").dicts()})
         if rows_after != list(range(1, k + 1)):
             missing = sorted(set(range(1, k + 1)) - set(rows_after))
-            res.violation("rows_lost_after_overlap", sig, f"after restart: missing k={missing[:10]} (before restart {len(rows_before)} rows)", witness)
+            res.violation("rows_lost_after_overlap", dict(sig, restart=task.get("restart", "clean")),
+                          f"after restart: missing k={missing[:10]} (before restart {len(rows_before)} rows)", witness)
         res.evaluations += mon.obs
         res.nontrivial(("overlap", parked_side, point))
         res.add_set("points_fired", f"overlap:{parked_side}:{point}")
@@ -387,7 +389,7 @@ def run(run):
     run.parallel(history_task, tasks)
     otasks = []
     for rep in range(1 if quick else 4):
-        for side, pts in (("handover", ["ho.locked", "ho.before_save", "ho.saved"]),
+        for side, pts in (("handover", ["ho.before_lock", "ho.locked", "ho.before_save", "ho.saved"]),
                           ("flush", ["fr.before_index", "idx.tmp_written", "idx.renamed", "fr.index_added", "fl.verified", "fl.published"])):
             for pnt in pts:
                 otasks.append({"name": f"ov-{side}-{pnt}-{rep}", "seed": run.rng("ov", side, pnt, rep).getrandbits(40), "side": side, "point": pnt})
@@ -403,7 +405,7 @@ def replay(run, path):
         run.parallel(multitype_task, [{"name": "replay", "seed": w["seed"]}], nproc=1)
         return
     if w.get("mode") == "overlap":
-        run.parallel(overlap_task, [{"name": "replay", "seed": w["seed"], "side": w["parked"][0], "point": w["parked"][1]}], nproc=1)
+        run.parallel(overlap_task, [{"name": "replay", "seed": w["seed"], "side": w["parked"][0], "point": w["parked"][1], "restart": w.get("restart", "clean")}], nproc=1)
         return
     c = w.get("crash") or {}
     run.parallel(history_task, [{"name": "replay", "tmpl": w["template"], "seed": w["seed"], "point": c.get("point"), "nth": c.get("nth", 0)}], nproc=1)
